@@ -184,6 +184,30 @@ def simplify(atoms, box=None):
         if k not in seen:
             seen.add(k)
             res.append(a)
+    # first character of a string: `s.chars().next() == Some(c)` is `s.starts_with(c)`; with the first character known,
+    # `!s.starts_with(d)` for another character says nothing more
+    import re as _re
+    strs = {atom_str(a): a for a in res}
+    for sa, a in list(strs.items()):
+        m = _re.match(r"^\((Iterator::next\(mut\(<impl str>::chars\((.*)\)\)\)) as Some\)\.0 - (\d+) == 0$", sa)
+        if m and ("%s is Some" % m.group(1)) in strs:
+            res = [x for x in res if x is not a and x is not strs["%s is Some" % m.group(1)]]
+            res.append(("pred", "<impl str>::starts_with(%s,%s)" % (m.group(2), m.group(3)), True))
+    firsts = {}
+    for a in res:
+        if a[0] == "pred" and a[2] is True:
+            m = _re.match(r"^<impl str>::starts_with\((.*),(\d+)\)$", str(a[1]))
+            if m:
+                firsts[m.group(1)] = m.group(2)
+    if firsts:
+        keep = []
+        for a in res:
+            if a[0] == "pred" and a[2] is False:
+                m = _re.match(r"^<impl str>::starts_with\((.*),(\d+)\)$", str(a[1]))
+                if m and m.group(1) in firsts and firsts[m.group(1)] != m.group(2):
+                    continue
+            keep.append(a)
+        res = keep
     return res
 
 
